@@ -1,4 +1,5 @@
 """C12 — reset restores the initial machine exactly."""
+import re
 from ..facts import callee_of, short, sp_file_line, expr_str, expr_walk, place_fields
 from .. import kit, dbg
 from ..effects import Effects
@@ -83,11 +84,25 @@ def run(ctx):
     ctx.need(len(ctor_sites) == 1, "exactly one construction site of the debugger: %d" % len(ctor_sites))
     f, b, t = ctor_sites[0]
     ctx.analysed_fns.add(f.name)
-    # which argument of Debugger::new is the RunState?
+    # what Debugger::new stores in the snapshot field, expressed over what the construction site hands it (the clone may be taken
+    # by the caller - `new(.., env.state.clone(), ..)` - or by the constructor from a `&RunState`)
     newf = ctx.fn("lace::debugger::Debugger::new")
-    idx = [i for i in range(1, newf.arg_count + 1) if newf.local_ty(i) == "runtime::RunState"]
-    ctx.need(len(idx) == 1, "RunState parameter of Debugger::new")
-    e = f.expr(t["args"][idx[0] - 1], 10)
+    DBG_ADT = "lace::debugger::Debugger"
+    dfields = [f_["name"] for f_ in prog.adt(DBG_ADT)["variants"][0]["fields"]]
+    aggs = [s_ for b_, i_, s_ in newf.assigns() if s_["r"]["k"] == "agg" and s_["r"].get("adt") == DBG_ADT]
+    ctx.need(len(aggs) == 1 and snap in dfields, "the Debugger { .. } constructor expression and its `%s` field" % snap)
+    stored = newf.expr(aggs[0]["r"]["ops"][dfields.index(snap)], 12)
+
+    def subst_args(x):
+        if not isinstance(x, tuple) or not x:
+            return x
+        if x[0] == "arg" and isinstance(x[1], int) and x[1] - 1 < len(t["args"]):
+            return f.expr(t["args"][x[1] - 1], 10)
+        return tuple(subst_args(y) if isinstance(y, tuple) and y and isinstance(y[0], str) else
+                     (tuple(subst_args(z) if isinstance(z, tuple) else z for z in y) if isinstance(y, tuple) else y) for y in x)
+    e = subst_args(stored)
+    while e[0] in ("ref", "deref") and False:
+        e = e[1]
     ctx.instance(1, {"snapshot_expr": expr_str(e), "at": sp_file_line(t.get("sp"))})
     is_clone = e[0] == "call" and e[1] is not None and e[1].endswith("core::clone::Clone>::clone") and "RunState" in e[1]
     src = kit.strip_refs(e[2][0]) if is_clone else None
@@ -135,10 +150,31 @@ def run(ctx):
                           "cannot restore it" % (fld["name"], ty, ", ".join(bad)))
     impls = [i for i in prog.impls if i.get("trait") == "core::clone::Clone" and i.get("self_ty") == "runtime::RunState"]
     ctx.need(len(impls) == 1, "Clone impl for RunState")
-    ctx.oblig(impls[0]["auto_derived"], {"Clone for RunState": "derived" if impls[0]["auto_derived"] else "manual"}, "#[derive(Clone)]")
-    if not impls[0]["auto_derived"]:
+    derived = bool(impls[0]["auto_derived"])
+    how = "derived"
+    if not derived:
+        # a hand-written impl is accepted when it is the derive written out: one RunState { .. } whose operand for every field is that
+        # field of `self`, copied (Copy types) or passed through Clone::clone - nothing shared, nothing dropped, nothing reset
+        cf = [prog.fns[n_] for n_ in prog.fns if re.search(r"<runtime::RunState as core::clone::Clone>::clone$", n_) and prog.fns[n_].bkind == "fn"]
+        ok_m = len(cf) == 1
+        if ok_m:
+            cfn = cf[0]
+            ags = [s_ for b_, i_, s_ in cfn.assigns() if s_["r"]["k"] == "agg" and s_["r"].get("adt") == RUNSTATE]
+            ok_m = len(ags) == 1 and len(ags[0]["r"]["ops"]) == len(rs["variants"][0]["fields"])
+            if ok_m:
+                for fld, op in zip(rs["variants"][0]["fields"], ags[0]["r"]["ops"]):
+                    e_ = cfn.expr(op, 8)
+                    if e_[0] == "call" and str(e_[1]).endswith("core::clone::Clone>::clone") and len(e_[2]) == 1:
+                        e_ = e_[2][0]
+                    while e_[0] in ("ref", "deref"):
+                        e_ = e_[1]
+                    ok_m = ok_m and e_[0] == "field" and e_[2] == fld["name"] and kit.strip_refs(e_[1])[0] == "arg"
+        derived = ok_m
+        how = "hand-written, field by field (equal to the derive)" if ok_m else "hand-written"
+    ctx.oblig(derived, {"Clone for RunState": how}, "#[derive(Clone)] or its expansion")
+    if not derived:
         ctx.violation("manual-clone", impls[0].get("span", "-"),
-                      "RunState has a hand-written Clone; the deep-copy argument needs review (derive it, or extend the rule)")
+                      "RunState has a hand-written Clone that is not the field-by-field copy a derive produces: the saved initial state may share or lose part of the machine")
     ctx.finish_rule()
 
     ctx.rule("C12.R4", "reset assigns the whole state from a clone of the saved state and nothing after it", floor=1)
